@@ -1,6 +1,368 @@
-EXPLANATION = "stub"
-ASSUMPTIONS = []
+"""C06 — the RIB's change stream reproduces the RIB (structural clauses)."""
+import re
+
+from ..cfg import FnView, Renderer, walk, show, strip, branches, guards_of, flat_guards
+from ..facts import callee_names, short
+from ..util import view, crate_fns, root_name, agg_field, expr_calls, expr_fields, field_writes, last_field, field_path
+
+EXPLANATION = (
+    "Static rules over table/src/lib.rs MIR: R06.1 every NlriChange construction takes current_paths from "
+    "Destination::unfiltered_iter (or an empty Vec) — the ranked list consumers fold must exclude FILTERED and "
+    "NEXTHOP_INVALID entries; R06.2 in every mutator the 'old best' read dominates all mutations of the entry list and no "
+    "mutation lies between the 'new best' read and the emitted change; R06.3 destination ids: alloc only when a Destination is "
+    "created and every path from that creation to a return stores an entry, every removal from Rib.destinations releases the id "
+    "(direct dealloc, or the freed_ids idiom drained into dealloc); R06.4 while deferring, insert returns NoChange only after "
+    "storing the entry, end_deferral clears the flag and returns collect_loc_rib_paths on every path, which skips no "
+    "destination that has an eligible path. Decides these necessary conditions, not fold(stream) == RIB over histories.")
+ASSUMPTIONS = [
+    "std HashMap::retain removes exactly the keys for which the closure returns false",
+    "Vec<RibEntry> methods taking &mut self are the only way to mutate Destination.entry (field private to the module)",
+]
+
+NLRI_CHANGE = re.compile(r"rustybgp_table::NlriChange")
+ENTRY_MUT = re.compile(r"(alloc::vec::Vec::<T, A>::|std::vec::Vec::<T, A>::)(remove|insert|retain|retain_mut|push|clear|swap_remove|truncate|drain|pop|append|dedup_by|sort)"
+                       r"|.*slice::<impl \[T\]>::(sort|sort_unstable|sort_by|sort_unstable_by|sort_by_key|reverse|swap)"
+                       r"|rustybgp_table::RibEntry::set_nexthop_invalid|rustybgp_table::RibEntry::set_filtered"
+                       r"|rustybgp_table::Source::(mark_stale|mark_llgr_stale|clear_llgr_stale)")
+
+
+def _is_entry_mut(t):
+    names = callee_names(t)
+    if not any(ENTRY_MUT.fullmatch(n) for n in names):
+        return False
+    if any(n.startswith("rustybgp_table::") for n in names):
+        return True
+    return "RibEntry" in t["f"].get("ga", "")
+
+
+def nlri_change_sites(prog):
+    out = []
+    for k in crate_fns(prog, "rustybgp_table"):
+        if "rustybgp_table::NlriChange" not in " ".join(prog.ix[k].get("aggs", [])):
+            continue
+        fv = view(prog, k)
+        for bi, si, s in fv.aggregates(NLRI_CHANGE):
+            if s.get("x"):
+                continue    # derive(Clone) and other expansions
+            out.append((fv, bi, si, s))
+    return out
+
+
 def check_current_paths(prog, r):
-    r.note("pending")
+    sites = nlri_change_sites(prog)
+    for fv, bi, si, s in sites:
+        r.analysed(root_name(prog, fv.key))
+        op = agg_field(s, "current_paths")
+        rend = Renderer(fv, depth=40, through_names=True)
+        e = rend.operand(op, 40)
+        calls = expr_calls(e)
+        where = "%s" % short(root_name(prog, fv.key))
+        if any(c.endswith("Destination::unfiltered_iter") for c in calls):
+            r.ok("%s: current_paths <- unfiltered_iter" % where)
+            continue
+        src = [c for c in calls if re.search(r"::(iter|iter_mut|into_iter|values|drain)$", c)]
+        if not src and any(re.search(r"Vec::<T>::new|vec::from_elem|Vec::<T, A>::new", c) or c.endswith("::new") for c in calls) and not expr_fields(e):
+            r.ok("%s: current_paths <- empty Vec" % where)
+            continue
+        flds = [f for f in expr_fields(e) if f in ("entry",)]
+        hasfilter = any(c.endswith("Iterator::filter") for c in calls)
+        desc = "current_paths<-%s%s" % (".".join(flds) or "?", "+custom-filter" if hasfilter else "")
+        r.fail(root_name(prog, fv.key), desc,
+               "NlriChange.current_paths is built from %s, not from Destination::unfiltered_iter: entries flagged NEXTHOP_INVALID (or FILTERED) "
+               "can be announced as best/add-path paths" % show(e, 110), fv.loc(bi))
+    r.floor("NlriChange constructions", len(sites), 15)
+
+
 def run(prog, rep, tier):
-    pass
+    r1 = rep.rule("R06.1", "NlriChange.current_paths derives from Destination::unfiltered_iter or an empty Vec")
+    check_current_paths(prog, r1)
+    r2 = rep.rule("R06.2", "old-best read dominates every mutation; no mutation between new-best read and the emitted change")
+    check_bracketing(prog, r2)
+    r3 = rep.rule("R06.3", "destination id lifecycle: alloc => entry stored; removal => id released")
+    check_ids(prog, r3)
+    r4 = rep.rule("R06.4", "deferral: NoChange only after the entry is stored; end_deferral clears the flag and re-emits everything")
+    check_deferral(prog, r4)
+
+
+# ---------------------------------------------------------------------------------------------- R06.2
+BEST_READ = re.compile(r"rustybgp_table::Destination::unfiltered_best|.*Iterator::find")
+
+
+def check_bracketing(prog, r):
+    n = 0
+    for fv, bi, si, s in nlri_change_sites(prog):
+        op = agg_field(s, "best_changed")
+        rend = Renderer(fv, depth=12)
+        e = rend.operand(op, 12)
+        if e[0] == "const":
+            continue
+        # locate the two reads: through_names rendering exposes `old != new`
+        rend2 = Renderer(fv, depth=40, through_names=True)
+        e2 = rend2.operand(op, 40)
+        reads = [x for x in walk(e2) if isinstance(x, tuple) and x and x[0] == "call" and BEST_READ.fullmatch(x[1]) and x[3] is not None]
+        where = short(root_name(prog, fv.key))
+        if len(reads) < 2:
+            r.unanalysable("%s: best_changed is not a comparison of two best-path reads: %s" % (where, show(e2, 100)), fv.loc(bi))
+            continue
+        n += 1
+        r.analysed(root_name(prog, fv.key))
+        rb = sorted({x[3] for x in reads})
+        # order the reads by dominance
+        old_b, new_b = rb[0], rb[-1]
+        if fv.dominates(new_b, old_b) and not fv.dominates(old_b, new_b):
+            old_b, new_b = new_b, old_b
+        muts = [b for b, t in fv.calls() if _is_entry_mut(t)]
+        # stores of flags through set_* are covered by ENTRY_MUT; direct flag writes:
+        for b2, _, _ in field_writes(fv, "flags"):
+            muts.append(b2)
+        bad = []
+        for m in muts:
+            # (a) mutation not dominated by the old read and able to reach the aggregate
+            if not fv.dominates(old_b, m) and bi in fv.reach(m):
+                bad.append(("before-old-read", m))
+            # (b) mutation between new read and the aggregate (without passing the old read again)
+            if m in fv.reach_after(new_b, {old_b}) | ({new_b} if False else set()) and bi in fv.reach(m, {old_b}):
+                bad.append(("after-new-read", m))
+        if not fv.dominates(new_b, bi):
+            bad.append(("new-read-not-dominating-change", new_b))
+        if bad:
+            kinds = sorted({k for k, _ in bad})
+            r.fail(root_name(prog, fv.key), "bracket:" + "+".join(kinds),
+                   "best_changed compares reads that do not bracket the mutation (%s)" % ", ".join("%s at line %d" % (k, fv.line(m)) for k, m in bad[:4]),
+                   fv.loc(bi))
+        else:
+            r.ok("%s: old read @%d, %d mutation site(s), new read @%d, change @%d" % (where, fv.line(old_b), len(muts), fv.line(new_b), fv.line(bi)))
+    r.floor("mutators with computed best_changed", n, 8)
+
+
+# ---------------------------------------------------------------------------------------------- R06.3
+def check_ids(prog, r):
+    alloc = prog.one(r"rustybgp_table::IdAllocator::alloc")
+    dealloc = prog.one(r"rustybgp_table::IdAllocator::dealloc")
+    # (a) alloc callers: result must flow into Destination::with_id
+    callers = sorted(prog.callers(alloc))
+    if not callers:
+        r.unanalysable("IdAllocator::alloc has no callers")
+    for c in callers:
+        fv = view(prog, c)
+        for bi, t in fv.calls(re.compile(r"rustybgp_table::IdAllocator::alloc")):
+            # the destination of alloc is an argument of with_id
+            ok = False
+            for b2, t2 in fv.calls(re.compile(r"rustybgp_table::Destination::with_id")):
+                e = Renderer(fv, depth=8).operand(t2["args"][0], 8)
+                if any(isinstance(x, tuple) and x and x[0] == "call" and x[1].endswith("IdAllocator::alloc") for x in walk(e)):
+                    ok = True
+            if ok:
+                r.ok("%s: alloc() feeds Destination::with_id" % short(root_name(prog, c)))
+            else:
+                r.fail(root_name(prog, c), "alloc-not-for-destination", "IdAllocator::alloc result is not used to create a Destination", fv.loc(bi))
+    # (a2) in the function that creates destinations: every path from creation to return stores an entry
+    creators = set()
+    for c in callers:
+        creators.add(prog.ix[c].get("root") or c)
+    for c in sorted(creators):
+        fv = view(prog, c)
+        # creation point: the call that receives the creating closure (or_insert_with) or calls with_id directly
+        cre = []
+        for bi, t in fv.calls():
+            if any(n.endswith("::or_insert_with") for n in callee_names(t)):
+                for a in t["args"]:
+                    p = a.get("m") or a.get("c")
+                    if p and "{closure@" in fv.f["locals"][p["l"]] and "Destination" in fv.f["locals"][t["dest"]["l"]]:
+                        cre.append(bi)
+            if any(n.endswith("Destination::with_id") for n in callee_names(t)):
+                cre.append(bi)
+        if not cre:
+            r.unanalysable("%s: cannot find where the Destination is created" % short(prog.name(c)), fv.loc())
+            continue
+        stores = [b for b, t in fv.calls() if any(re.search(r"Vec::<T, A>::(insert|push)$", n) for n in callee_names(t)) and "RibEntry" in t["f"].get("ga", "")]
+        for cb in cre:
+            escaping = [e for e in fv.returns() if e in fv.reach_after(cb, stores)]
+            if escaping:
+                lines = sorted({fv.line(_ret_origin(fv, e, stores, cb)) for e in escaping})
+                r.fail(prog.name(c), "alloc-without-entry",
+                       "a path from the creation of a Destination (id allocated) returns without storing an entry: an empty destination stays in the map "
+                       "(counted by state(), id never released) — return reached without Vec::insert at line(s) %s" % lines, fv.loc(cb))
+            else:
+                r.ok("%s: every path from Destination creation stores an entry" % short(prog.name(c)))
+    # (b) removals from Rib.destinations
+    n_rm = 0
+    for k in crate_fns(prog, "rustybgp_table"):
+        ix = prog.ix[k]
+        names = [c["f"].get("name", "") for c in ix["calls"]]
+        if not any(re.search(r"HashMap::<K, V, S(, A)?>::(remove|retain|clear|drain|remove_entry|extract_if)$", n) for n in names):
+            continue
+        fv = view(prog, k)
+        for bi, t in fv.calls():
+            nm = t["f"].get("name", "")
+            m = re.search(r"HashMap::<K, V, S(, A)?>::(remove|retain|clear|drain|remove_entry)$", nm)
+            if not m or "Destination" not in t["f"].get("ga", ""):
+                continue
+            n_rm += 1
+            op = m.group(2)
+            where = short(root_name(prog, k))
+            r.analysed(root_name(prog, k))
+            if op in ("remove", "remove_entry"):
+                de = [b for b, _ in fv.calls(re.compile(r"rustybgp_table::IdAllocator::dealloc"))]
+                if de and (fv.dominated_by_any(bi, de) or fv.must_pass(bi, de, fv.returns())):
+                    r.ok("%s: destinations.remove paired with dealloc" % where)
+                else:
+                    r.fail(root_name(prog, k), "remove-without-dealloc", "a Destination is removed from the map without releasing its id", fv.loc(bi))
+            elif op == "retain":
+                ck = None
+                for a in t["args"]:
+                    p = a.get("m") or a.get("c")
+                    if p and "{closure@" in fv.f["locals"][p["l"]]:
+                        for b2, s2, st in fv.defs().get(p["l"], []):
+                            if s2 != "t" and st["rv"]["r"] == "agg" and st["rv"]["k"] == "closure":
+                                ck = st["rv"]["def"]
+                if not ck:
+                    r.unanalysable("%s: retain closure not found" % where, fv.loc(bi))
+                    continue
+                # drained into dealloc after the retain
+                de = [b for b, _ in fv.calls(re.compile(r"rustybgp_table::IdAllocator::dealloc"))]
+                after = fv.reach_after(bi)
+                if not any(b in after for b in de):
+                    r.fail(root_name(prog, k), "retain-no-drain", "ids collected while pruning destinations are never passed to IdAllocator::dealloc", fv.loc(bi))
+                    continue
+                check_retain_closure(prog, view(prog, ck), r, where)
+            else:
+                r.fail(root_name(prog, k), "bulk-" + op, "bulk removal of destinations without releasing ids", fv.loc(bi))
+    r.floor("removals from Rib.destinations", n_rm, 5)
+
+
+def _ret_origin(fv, ret, stores, cb):
+    """A block close to the early return (first block on a store-free path that is a return-value aggregate)."""
+    region = fv.reach_after(cb, stores)
+    cands = [b for b in region if ret in fv.reach(b, stores) and any("rv" in s and s["rv"]["r"] == "agg" and s["rv"].get("k") == "adt" for s in fv.blocks[b]["s"])]
+    return max(cands, key=lambda b: fv.line(b)) if cands else ret
+
+
+def check_retain_closure(prog, cfv, r, where):
+    """Every way the closure can return `false` must have pushed the id (accepted idioms: constant false dominated
+    by a push; `!entry.is_empty()` preceded by `if entry.is_empty() { push }` with no mutation in between)."""
+    rend = Renderer(cfv, depth=10)
+    pushes = [b for b, t in cfv.calls() if any(re.search(r"Vec::<T, A>::push$", n) for n in callee_names(t)) and "u32" in t["f"].get("ga", "")]
+    deallocs = [b for b, _ in cfv.calls(re.compile(r"rustybgp_table::IdAllocator::dealloc"))]
+    rel = pushes + deallocs
+    n = 0
+    for bi, si, s in cfv.defs().get(0, []):
+        if bi not in cfv.live:
+            continue
+        n += 1
+        if si == "t":
+            e = rend.call_expr(s, 10, bi)
+        else:
+            e = rend.rvalue(s["rv"], 10)
+        if e[0] == "const":
+            if e[1] in (1, True):
+                r.ok("%s retain: returns true (kept)" % where)
+            elif cfv.dominated_by_any(bi, rel):
+                r.ok("%s retain: returns false after releasing the id" % where)
+            else:
+                r.fail(root_name(prog, cfv.key), "retain-false-without-release",
+                       "the pruning closure returns false (destination removed) on a path that never records the id for release", cfv.loc(bi))
+            continue
+        # computed: !is_empty(entry)
+        ee = e
+        neg = False
+        while ee[0] == "un" and ee[1] == "Not":
+            ee = ee[2]
+            neg = not neg
+        if ee[0] == "call" and ee[1].endswith("::is_empty") and neg:
+            # need: a push block guarded by the same is_empty()==true, reaching this return, no entry mutation between
+            ok = False
+            for pb in rel:
+                if bi not in cfv.reach(pb):
+                    continue
+                for g, labels, how in flat_guards(cfv, pb):
+                    if g[0] == "call" and g[1].endswith("::is_empty") and labels == {"true"} and g[2] == ee[2]:
+                        gb = g[3]
+                        between = cfv.reach(gb) & {b for b in cfv.live if bi in cfv.reach(b)}
+                        if not any(_is_entry_mut(cfv.blocks[b]["t"]) for b in between if cfv.blocks[b]["t"]["t"] == "call"):
+                            ok = True
+            if ok:
+                r.ok("%s retain: returns !is_empty() after `if is_empty() { release }`" % where)
+            else:
+                r.fail(root_name(prog, cfv.key), "retain-computed-without-release",
+                       "the pruning closure returns !entry.is_empty() but the empty case does not record the id for release", cfv.loc(bi))
+            continue
+        r.unanalysable("%s retain closure returns %s" % (where, show(e, 80)), cfv.loc(bi))
+    if n == 0:
+        r.unanalysable("%s retain closure: no return value definitions" % where, cfv.loc())
+
+
+# ---------------------------------------------------------------------------------------------- R06.4
+def check_deferral(prog, r):
+    ins = view(prog, prog.one(r"rustybgp_table::Table::insert"))
+    r.analysed(ins.name)
+    stores = [b for b, t in ins.calls() if any(re.search(r"Vec::<T, A>::insert$", n) for n in callee_names(t)) and "RibEntry" in t["f"].get("ga", "")]
+    if not stores:
+        r.unanalysable("Table::insert: no Vec::insert on the entry list", ins.loc())
+    n = 0
+    for bi, si, s in ins.aggregates(re.compile(r"rustybgp_table::InsertResult"), "NoChange"):
+        gs = flat_guards(ins, bi)
+        deferring = any(_mentions_deferring(g) and labels == {"true"} for g, labels, how in gs)
+        if deferring:
+            n += 1
+            if ins.dominated_by_any(bi, stores):
+                r.ok("insert: NoChange under `deferring` is dominated by the entry store")
+            else:
+                r.fail(ins.name, "deferring-nochange-before-store", "while deferring, insert can return NoChange before storing the entry: the route is lost, not deferred", ins.loc(bi))
+    if n == 0:
+        r.unanalysable("Table::insert: no NoChange return guarded by `deferring` found", ins.loc())
+    # writers of Rib.deferring
+    writers = {}
+    for k in crate_fns(prog, "rustybgp_table"):
+        fv = view(prog, k)
+        for bi, si, s in field_writes(fv, "deferring"):
+            v = s["rv"]["o"].get("k", {}).get("v") if s["rv"]["r"] == "use" else None
+            writers.setdefault(root_name(prog, k), set()).add(v)
+        for bi, si, s in fv.aggregates(re.compile(r"rustybgp_table::Rib")):
+            op = agg_field(s, "deferring")
+            if op is not None:
+                writers.setdefault(root_name(prog, k), set()).add(op.get("k", {}).get("v"))
+    want = {"rustybgp_table::Table::start_deferral": {1}, "rustybgp_table::Table::end_deferral": {0}, "rustybgp_table::Rib::new": {0}}
+    for w, vals in sorted(writers.items()):
+        if w in want and vals == want[w]:
+            r.ok("deferring written by %s = %s" % (short(w), sorted(vals)))
+        else:
+            r.fail(w, "deferring-writer", "unexpected writer of Rib.deferring (values %s)" % sorted(map(str, vals)), "table/src/lib.rs")
+    for w in want:
+        if w not in writers:
+            r.unanalysable("expected writer of Rib.deferring not found: %s" % w)
+    # end_deferral returns collect_loc_rib_paths on every path
+    ed = view(prog, prog.one(r"rustybgp_table::Table::end_deferral"))
+    r.analysed(ed.name)
+    cl = [b for b, t in ed.calls(re.compile(r"rustybgp_table::Table::collect_loc_rib_paths(_impl)?"))]
+    if cl and all(ed.dominated_by_any(e, cl) for e in ed.returns()) and any(b for b in cl if ed.blocks[b]["t"]["dest"]["l"] == 0):
+        r.ok("end_deferral: every return is the result of collect_loc_rib_paths")
+    else:
+        r.fail(ed.name, "end-deferral-result", "end_deferral does not return collect_loc_rib_paths on every path", ed.loc())
+    # collect_loc_rib_paths: unlimited, and the only skip is `paths.is_empty()`
+    cp = view(prog, prog.one(r"rustybgp_table::Table::collect_loc_rib_paths"))
+    for b, t in cp.calls(re.compile(r"rustybgp_table::Table::collect_loc_rib_paths_impl")):
+        e = Renderer(cp, depth=6).operand(t["args"][2], 6)
+        if e[0] == "const" and (e[1] is not None and e[1] >= 2 ** 32 or (e[3] and "MAX" in str(e[3]))):
+            r.ok("collect_loc_rib_paths: unlimited (usize::MAX)")
+        else:
+            r.fail(cp.name, "limited", "collect_loc_rib_paths passes a finite limit %s" % show(e), cp.loc(b))
+    impl = prog.one(r"rustybgp_table::Table::collect_loc_rib_paths_impl")
+    for ck in prog.with_closures(impl)[1:]:
+        cfv = view(prog, ck)
+        nones = cfv.aggregates(re.compile(r"std::option::Option<.*>|core::option::Option<.*>|std::option::Option"), "None")
+        for bi, si, s in nones:
+            if s["p"]["l"] != 0 or s["p"].get("p"):
+                continue    # only `return None` / tail None
+            gs = flat_guards(cfv, bi)
+            if any(g[0] == "call" and g[1].endswith("::is_empty") and labels == {"true"} for g, labels, how in gs) and len(gs) == 1:
+                r.ok("collect_loc_rib_paths_impl: a destination is skipped only when it has no eligible path")
+            else:
+                r.fail(prog.name(impl), "skips-destination", "collect_loc_rib_paths_impl skips destinations under %s" % [show(g, 60) for g, _, _ in gs], cfv.loc(bi))
+
+
+def _mentions_deferring(e):
+    for x in walk(e):
+        if isinstance(x, tuple) and x and ((x[0] == "var" and x[1] == "deferring") or (x[0] == "field" and x[2] == "deferring")):
+            return True
+    return False
